@@ -286,6 +286,8 @@ def _decode_all(cx):
         return False, "missing"
     body = fn["thir"]["body"]
     loops = [n for n in walk(body) if n.get("k") == "loop"]
+    if not loops:
+        return _decode_all_iter(cx, fn, path)
     if len(loops) != 1:
         return False, "%d loops" % len(loops)
     # the decode call and its index variable
@@ -369,6 +371,57 @@ def _decode_all(cx):
             if nxt != T.op("add", 64, I, T.K(64, 1)):
                 probs.append("counter step %s" % _sh(nxt))
     return not probs, sorted(set(probs)) or "guard, step and pushed value as expected"
+
+
+def _decode_all_iter(cx, fn, path):
+    """iterator form: `(0..len/8).map(|i| get_insn(prog, i)).collect()` - exactly these three stages"""
+    F = cx.F
+    body = fn["thir"]["body"]
+    ev = symex.Evaluator(F)
+    owner = ev.owner_of(path)
+    pname = fn["thir"]["params"][0]["pat"]["name"]
+    PROG = ("obj", pname, fn["thir"]["params"][0]["ty"])
+    n_insns = T.op("udiv", 64, ("call", "len", (PROG,), 64), T.K(64, 8))
+    st0 = symex.St()
+    for q in fn["thir"]["params"]:
+        if q["pat"] and q["pat"].get("k") == "bind":
+            st0 = st0.set((owner, q["pat"]["id"]), PROG)
+    top = strip(body)
+    if top.get("k") != "block" or top.get("tail") is None:
+        return False, "no loop and no tail expression"
+    for stmt in top["stmts"]:
+        if stmt["k"] != "let":
+            continue
+        fake = {"k": "block", "stmts": [stmt], "tail": None, "ty": "()"}
+        nxt_states = [s2 for _v, s2 in ev.ev(fake, st0, path) if s2.exit is None and s2.feasible]
+        if len(nxt_states) == 1:
+            st0 = nxt_states[0]
+    tail = strip(top["tail"])
+    if tail.get("k") != "call" or not (callee_path(tail) or "").endswith("Iterator::collect"):
+        return False, "the result is not collected from an iterator"
+    mp = strip(tail["args"][0])
+    if mp.get("k") != "call" or not (callee_path(mp) or "").endswith("Iterator::map"):
+        return False, "collect is not applied directly to a map (a filter / skip / take stage changes which instructions are decoded)"
+    vals = ev.ev(mp["args"][0], st0, path)
+    if not (len(vals) == 1 and isinstance(vals[0][0], tuple) and vals[0][0][0] == "struct" and vals[0][0][1].endswith("ops::Range")):
+        return False, "map is not applied directly to a range a..b"
+    a, b = symex.sfield(vals[0][0], "start"), symex.sfield(vals[0][0], "end")
+    if not (a == T.K(64, 0) and b == n_insns):
+        return False, "range %s..%s" % (_sh(a), _sh(b))
+    clo = [v for v, _s in ev.ev(mp["args"][1], vals[0][1], path)]
+    if len(clo) != 1 or not (isinstance(clo[0], tuple) and clo[0] and clo[0][0] == "clo"):
+        return False, "the mapped function is not a closure of this function"
+    I = ("v", "I", 64)
+    outs = [(v, s2) for v, s2 in (ev.inline_fn(clo[0][1], [I], mp, vals[0][1]) or []) if s2.feasible]
+    if len(outs) != 1:
+        return False, "%d paths through the mapped closure" % len(outs)
+    x = outs[0][0]
+    fl = {k: y for k, y in x[3]} if isinstance(x, tuple) and x and x[0] == "struct" else {}
+    okp = all(isinstance(fl.get(f), tuple) and fl[f][0] == "v" and isinstance(fl[f][1], tuple) and fl[f][1][0] == "insn" and fl[f][1][1] == I and fl[f][1][2] == f
+              for f in ("opc", "dst", "src", "off", "imm"))
+    if not okp:
+        return False, "the mapped value is not get_insn(prog, i) unchanged"
+    return True, "(0..len/8).map(get_insn).collect()"
 
 
 def _sh(t):
